@@ -9,6 +9,7 @@
 
 mod common;
 mod mutex;
+mod once;
 mod rwlock;
 mod sem;
 
@@ -20,6 +21,7 @@ fn maker(prim: &str) -> Option<Maker> {
         "sem" => Some(sem::make),
         "mutex" => Some(mutex::make),
         "rwlock" => Some(rwlock::make),
+        "once" => Some(once::make),
         _ => None,
     }
 }
@@ -29,6 +31,7 @@ fn new_lines(prim: &str) -> Vec<String> {
         "sem" => [0, 1, 1, 2, 3].iter().map(|n| format!("new sem {}", n)).collect(),
         "mutex" => vec!["new mutex".to_string()],
         "rwlock" => vec!["new rwlock".to_string()],
+        "once" => vec!["new once".to_string()],
         _ => vec![],
     }
 }
